@@ -41,7 +41,9 @@ package tabula
 //@   ensures same_values: res.excludeHeaders == o.excludeHeaders && res.excludeFooters == o.excludeFooters && res.byColumn == o.byColumn && res.preserveLayout == o.preserveLayout && res.joinParagraphs == o.joinParagraphs && sameseq(res.pages, o.pages)
 
 //@ spec func sameFlags(a ExtractOptions, b ExtractOptions) bool = a.excludeHeaders == b.excludeHeaders && a.excludeFooters == b.excludeFooters && a.byColumn == b.byColumn && a.preserveLayout == b.preserveLayout && a.joinParagraphs == b.joinParagraphs
-//@ spec func sameSource(a *Extractor, b *Extractor) bool = a.filename == b.filename && a.format == b.format && a.err == b.err && a.ownsReader == b.ownsReader && a.readerOpened == b.readerOpened
+// a derived extractor reads the same source and shares a reader its parent has already opened, but never OWNS it:
+// the parent stays the owner, so a terminal operation on the derived extractor cannot close the parent's handle
+//@ spec func sameSource(a *Extractor, b *Extractor) bool = a.filename == b.filename && a.format == b.format && a.err == b.err && !a.ownsReader && a.readerOpened == b.readerOpened
 
 //@ func (*Extractor) clone results (res)
 //@   property C10
